@@ -35,6 +35,33 @@ type Path struct {
 // Resolve replaces phis of visited blocks by the value that flowed in along
 // this path; phis of blocks not on the path stay as they are.
 func (p *Path) Resolve(v ssa.Value) ssa.Value {
+	return p.resolve0(v)
+}
+
+// IsNil reports what the path knows about v being nil: a nil constant, a value
+// that is non-nil by construction, or a value a branch (or a split return)
+// decided.
+func (p *Path) IsNil(v ssa.Value) (isNil, known bool) {
+	r := p.resolve0(v)
+	if c, isC := r.(*ssa.Const); isC {
+		return c.Value == nil && isNillable(c.Type()), true
+	}
+	if nonNilByConstruction(r) {
+		return false, true
+	}
+	n, ok := p.isnil[p.canonOf(r)]
+	return n, ok
+}
+
+func isNillable(t types.Type) bool {
+	switch t.Underlying().(type) {
+	case *types.Interface, *types.Pointer, *types.Slice, *types.Map, *types.Chan, *types.Signature:
+		return true
+	}
+	return false
+}
+
+func (p *Path) resolve0(v ssa.Value) ssa.Value {
 	for i := 0; i < 64; i++ {
 		switch x := v.(type) {
 		case *ssa.Phi:
@@ -143,7 +170,11 @@ func privateCell(a *ssa.Alloc) bool {
 }
 
 func (p *Path) canon(v ssa.Value) string {
-	v = p.Resolve(v)
+	return p.canonOf(p.resolve0(v))
+}
+
+// canonOf names an already resolved value.
+func (p *Path) canonOf(v ssa.Value) string {
 	switch x := v.(type) {
 	case *ssa.Const:
 		if x.Value == nil {
@@ -787,6 +818,23 @@ func nonNilByConstruction(v ssa.Value) bool {
 				switch f.Pkg.Pkg.Path() + "." + f.Name() {
 				case "fmt.Errorf", "errors.New":
 					return true
+				case "errors.Join":
+					// non-nil as soon as one operand is: a package-level error value, or a non-nil construction
+					if len(x.Call.Args) == 1 {
+						if els, ok := VariadicElems(x.Call.Args[0]); ok {
+							for _, e := range els {
+								e = Unwrap(e)
+								if ld, isLd := e.(*ssa.UnOp); isLd && ld.Op == token.MUL {
+									if _, isG := ld.X.(*ssa.Global); isG {
+										return true
+									}
+								}
+								if nonNilByConstruction(e) {
+									return true
+								}
+							}
+						}
+					}
 				}
 			}
 		}
